@@ -24,7 +24,7 @@ ALL = {
           "plain integer matrices in the modelled core; time-dependent travel enters through C17's model; triangle-inequality flag (API only) not modelled."),
  "C03": E("proof", "Coq theorems (Props/C03.v): every stop on at most one route, routes well shaped, every unit whole and on one route, on all reachable states. " + ENGINE_TIE,
           "Coq proof (invariants: exactly once, whole and together, ordered under order-respecting moves) + correspondence + oracle (precedence order, direct adjacency, wholeness on implementation snapshots and solver output, join-shaped units)",
-          "order and direct adjacency inside a unit: Props/Order.v (order-respecting moves - in particular every move the generator model produces - keep every precedence arc ordered and direct successors adjacent; needed hypotheses shown by counterexamples); stop groups: Props/Units.v; alternates and fixed stops are decided by the oracles on implementation snapshots and solver output only."),
+          "order and direct adjacency inside a unit: Props/Order.v (order-respecting moves - in particular every move the generator model produces - keep every precedence arc ordered and direct successors adjacent; needed hypotheses shown by counterexamples); stop groups: Props/Units.v (defect witnesses, rollback) and Props/GroupInv.v (bookkeeping stays consistent under succeeding group-level operations when there are no initial stops); alternates and fixed stops are decided by the oracles on implementation snapshots and solver output only."),
  "C04": E("proof", "Coq theorems (Props/C04.v): in every reachable state the cached cells of every route equal the independent forward pass from_scratch over the route's stop sequence; history independence; the forward-walk equations in terms of the input. " + ENGINE_TIE,
           "Coq proof (refinement: incremental propagation = from-scratch recomputation, induction over histories) + correspondence + oracle from the input"),
  "C05": E("proof", "Coq theorems (Props/C05.v): total = sum of terms, terms = recomputation from routes, unplanned penalty = penalties of exactly the units not on routes, history independence. " + ENGINE_TIE,
